@@ -153,6 +153,8 @@ def _run(mod, check, args, seed, env, workdir, t0):
             agg["inconclusive"].append("shard %s: %s" % (spec.get("shard"), note))
             continue
         agg["shards_ok"] += 1
+        agg["counters"]["max_shard_wall_s"] = max(agg["counters"].get("max_shard_wall_s", 0), round(res.get("wall_s", 0), 1))
+        agg["counters"]["sum_shard_wall_s"] = round(agg["counters"].get("sum_shard_wall_s", 0) + res.get("wall_s", 0), 1)
         agg["evaluations"] += res["evaluations"]
         agg["distinct"].update(res["distinct"])
         for k, v in res["counters"].items():
